@@ -162,65 +162,105 @@ func replayAll(o *Options, prog *load.Program, all []*harnessStats, findings []*
 	}
 	outDir := filepath.Join(o.Verif, "out", "replay", o.Property)
 	os.MkdirAll(outDir, 0o755)
-	for pkg, cases := range byPkg {
-		res, err := nativeRun(o, prog, pkg, cases, 20*time.Minute)
-		if err != nil {
-			return err
-		}
-		for _, c := range cases {
-			r, ok := res[c.ID]
-			if f := fidx[c.ID]; f != nil {
-				if !ok {
-					f.ReplayOut = "no result"
-					f.Replayed = true
-					continue
-				}
-				f.Replayed = true
-				f.ReplayOut = fmt.Sprintf("failed=%v panic=%q vacuous=%v missing=%v", r.Failed, tail(r.Panic, 200), r.Vacuous, r.Missing)
-				for _, id := range r.Failed {
-					if id == f.Fail.ID || (f.Fail.ID == "uncaught-panic" && id == "process-died") || id == "process-died" && (strings.Contains(f.Fail.ID, "panic") || strings.Contains(f.Fail.ID, "terminat")) || (id == "terminates" && f.Fail.ID == "terminates") {
-						f.Confirmed = true
+	// Native map iteration order is random while the executor iterates in
+	// insertion order: a finding that depends on the order may need several
+	// native runs to show, and a passing path may fail natively under another
+	// order. Cases that do not agree are re-run (up to 5 rounds); a finding is
+	// confirmed if any run shows it, a validation case is accepted if any run
+	// agrees with the executor.
+	mismatch := map[string]string{} // validation case id -> last mismatch
+	validated := map[string]bool{}
+	for round := 0; round < 5; round++ {
+		pending := 0
+		for pkg, cases := range byPkg {
+			var run []ReplayCase
+			for _, c := range cases {
+				if f := fidx[c.ID]; f != nil {
+					if !f.Confirmed {
+						run = append(run, c)
 					}
+				} else if !validated[c.ID] {
+					run = append(run, c)
 				}
-				// write the replay file for confirmed findings
-				if f.Confirmed {
-					c.Expect = f.Fail.ID
-					file := filepath.Join(outDir, fmt.Sprintf("%s-%s.json", f.Spec.Name, hashStr(f.Sig)))
-					wrap := map[string]any{"property": o.Property, "pkg": f.Spec.Pkg, "signature": f.Sig, "witness": witnessString(f.Fail), "case": c}
-					b, _ := json.MarshalIndent(wrap, "", " ")
-					os.WriteFile(file, b, 0o644)
-					f.File = file
-				}
+			}
+			if len(run) == 0 {
 				continue
 			}
-			if v := vidx[c.ID]; v != nil {
-				hs := vhs[c.ID]
-				if !ok {
-					hs.ValidMismatch = append(hs.ValidMismatch, c.ID+": no native result")
-					continue
-				}
-				hs.Validated++
-				r.Failed = filterIDs(hs.Spec, r.Failed)
-				if len(r.Failed) > 0 || r.Vacuous || len(r.Missing) > 0 {
-					hs.ValidMismatch = append(hs.ValidMismatch, fmt.Sprintf("%s: native run of a passing path: failed=%v vacuous=%v missing=%v panic=%q inputs=%v choices=%v", c.ID, r.Failed, r.Vacuous, r.Missing, tail(r.Panic, 200), c.Inputs, c.Choices))
-					continue
-				}
-				// compare observations in order
-				if len(r.Observed) != len(v.Observed) {
-					hs.ValidMismatch = append(hs.ValidMismatch, fmt.Sprintf("%s: %d native observations vs %d symbolic; inputs=%v choices=%v", c.ID, len(r.Observed), len(v.Observed), c.Inputs, c.Choices))
-					continue
-				}
-				for k := range r.Observed {
-					if v.Observed[k].Val == "?" {
+			res, err := nativeRun(o, prog, pkg, run, 20*time.Minute)
+			if err != nil {
+				return err
+			}
+			for _, c := range run {
+				r, ok := res[c.ID]
+				if f := fidx[c.ID]; f != nil {
+					f.Replayed = true
+					if !ok {
+						f.ReplayOut = "no result"
+						pending++
 						continue
 					}
-					if r.Observed[k][0] != v.Observed[k].Tag || r.Observed[k][1] != v.Observed[k].Val {
-						hs.ValidMismatch = append(hs.ValidMismatch, fmt.Sprintf("%s: observation %s native=%s engine=%s inputs=%v choices=%v", c.ID, v.Observed[k].Tag, r.Observed[k][1], v.Observed[k].Val, c.Inputs, c.Choices))
-						break
+					f.ReplayOut = fmt.Sprintf("failed=%v panic=%q vacuous=%v missing=%v", r.Failed, tail(r.Panic, 200), r.Vacuous, r.Missing)
+					for _, id := range r.Failed {
+						if id == f.Fail.ID || (f.Fail.ID == "uncaught-panic" && id == "process-died") || id == "process-died" && (strings.Contains(f.Fail.ID, "panic") || strings.Contains(f.Fail.ID, "terminat")) || (id == "terminates" && f.Fail.ID == "terminates") {
+							f.Confirmed = true
+						}
 					}
+					// write the replay file for confirmed findings
+					if f.Confirmed {
+						c.Expect = f.Fail.ID
+						file := filepath.Join(outDir, fmt.Sprintf("%s-%s.json", f.Spec.Name, hashStr(f.Sig)))
+						wrap := map[string]any{"property": o.Property, "pkg": f.Spec.Pkg, "signature": f.Sig, "witness": witnessString(f.Fail), "case": c}
+						b, _ := json.MarshalIndent(wrap, "", " ")
+						os.WriteFile(file, b, 0o644)
+						f.File = file
+					} else {
+						pending++
+					}
+					continue
+				}
+				v := vidx[c.ID]
+				if v == nil {
+					continue
+				}
+				hs := vhs[c.ID]
+				bad := ""
+				switch {
+				case !ok:
+					bad = c.ID + ": no native result"
+				default:
+					r.Failed = filterIDs(hs.Spec, r.Failed)
+					if len(r.Failed) > 0 || r.Vacuous || len(r.Missing) > 0 {
+						bad = fmt.Sprintf("%s: native run of a passing path: failed=%v vacuous=%v missing=%v panic=%q inputs=%v choices=%v", c.ID, r.Failed, r.Vacuous, r.Missing, tail(r.Panic, 200), c.Inputs, c.Choices)
+					} else if len(r.Observed) != len(v.Observed) {
+						bad = fmt.Sprintf("%s: %d native observations vs %d symbolic; inputs=%v choices=%v", c.ID, len(r.Observed), len(v.Observed), c.Inputs, c.Choices)
+					} else {
+						for k := range r.Observed {
+							if v.Observed[k].Val == "?" {
+								continue
+							}
+							if r.Observed[k][0] != v.Observed[k].Tag || r.Observed[k][1] != v.Observed[k].Val {
+								bad = fmt.Sprintf("%s: observation %s native=%s engine=%s inputs=%v choices=%v", c.ID, v.Observed[k].Tag, r.Observed[k][1], v.Observed[k].Val, c.Inputs, c.Choices)
+								break
+							}
+						}
+					}
+				}
+				if bad == "" {
+					validated[c.ID] = true
+					delete(mismatch, c.ID)
+					hs.Validated++
+				} else {
+					mismatch[c.ID] = bad
+					pending++
 				}
 			}
 		}
+		if pending == 0 {
+			break
+		}
+	}
+	for id, m := range mismatch {
+		vhs[id].ValidMismatch = append(vhs[id].ValidMismatch, m)
 	}
 	return nil
 }
